@@ -14,8 +14,7 @@ def run(tier):
     ntrees = 10 if tier == "thorough" else 3
     specs = []
     for i in range(ntrees):
-        specs.append({"tree": trees.rich_tree(rng, hostile=True, n_hostile=12 if tier == "thorough" else 9),
-                      "config": trees.SITE_CONFIG})
+        specs.append({"tree": trees.rich_tree(rng, hostile=True, part=(i % 3, 3)), "config": trees.SITE_CONFIG})
     all_pages = pgsite.crawl_worlds(specs)
     nlinks = 0
     bad = 0
